@@ -13,14 +13,15 @@ import (
 
 // Src is one data source object prepared for a case, with the fault (if any) already scripted.
 type Src struct {
-	Kind      string // triangle simpulse erroring abaco abacoudp lancero
-	DS        dastard.DataSource
-	Any       *dastard.AnySource
-	DevOpen   func() bool              // Abaco: a device opened by Sample is still open
-	AdapterOn func() bool              // Lancero: adapter or collector still running
-	Reconf    func() error             // clears the fault and configures the source again (before a restart)
-	Feed      func(stop chan struct{}) // abacoudp: send packets to the receiver until stop is closed (nil otherwise)
-	Silence   func()                   // abaco: the hardware stops sending (nil otherwise)
+	Kind         string // triangle simpulse erroring abaco abacoudp lancero
+	DS           dastard.DataSource
+	Any          *dastard.AnySource
+	DevOpen      func() bool              // Abaco: a device opened by Sample is still open
+	AdapterOn    func() bool              // Lancero: adapter or collector still running
+	Reconf       func() error             // clears the fault and configures the source again (before a restart)
+	Feed         func(stop chan struct{}) // abacoudp: send packets to the receiver until stop is closed (nil otherwise)
+	Silence      func()                   // abaco: the hardware stops sending (nil otherwise)
+	SetStopDelay func(d time.Duration)    // abaco (scripted): closing the device takes d (nil otherwise)
 }
 
 func no() bool { return false }
@@ -101,6 +102,7 @@ func NewSrc(kind, fault string) (*Src, error) {
 		}
 		s := &Src{Kind: kind, DS: as, Any: &as.AnySource, DevOpen: p.VerifOpen, AdapterOn: no}
 		s.Silence = func() { p.VerifSetSilent(true) }
+		s.SetStopDelay = func(d time.Duration) { p.StopDelay = d }
 		s.Reconf = func() error { // the hardware now sends data: a healthy producer replaces the faulty one
 			if p.VerifOpen() {
 				return fmt.Errorf("device still open (address already in use)")
